@@ -173,7 +173,26 @@ pub fn check(j: &Job, c: &Case, l: &mut Local) -> CaseResult {
     let s0 = match sci_form(&p0, rx.exp) {
         Some(s) => s,
         None => {
+            // the float is zero: the output denotes zero with the float's sign, and - the scientific exponent of
+            // zero being 0, inside every valid pair of breaks, also under the reading that breaks are ignored for
+            // mixed bases - exponent notation is used exactly when the format requires it
             l.class("zero");
+            if mag != 0 {
+                // a tiny subnormal whose generic-radix default output is 0.0: within the error bound of C07, not judged here
+                l.class("default-output-zero-for-nonzero-float");
+                return Ok(());
+            }
+            if sci_form(&p1, rx.exp).is_some() {
+                return Err(mk("value", format!("output {:?} does not denote zero", show(&out))));
+            }
+            if p1.neg != k.is_negative(c.bits) {
+                return Err(mk("value", format!("output {:?} has the wrong sign for this zero", show(&out))));
+            }
+            let required = m.required_exponent_notation && cfg!(feature = "format");
+            if info.has_exp != required {
+                return Err(mk("notation", format!("output {:?}: zero (scientific exponent 0) is written {} exponent notation although the format {}", show(&out), if info.has_exp { "in" } else { "without" }, if required { "requires it" } else { "does not require it" })));
+            }
+            l.nontrivial_hash(splitmix(c.bits ^ hash_bytes(&o.to_bytes()) ^ ((j.entry as u64) << 44) ^ ((j.ty as u64) << 62)));
             return Ok(());
         },
     };
@@ -364,7 +383,7 @@ fn value_strategy(k: FloatKind, radix: u32) -> BoxedStrategy<u64> {
             (v as f32).to_bits() as u64
         }
     });
-    prop_oneof![5 => gen::finite_mag(k), 4 => pattern.prop_map(move |b| b.min(k.max_finite_bits()) & !k.sign_mask())].boxed()
+    prop_oneof![50 => gen::finite_mag(k), 40 => pattern.prop_map(move |b| b.min(k.max_finite_bits()) & !k.sign_mask()), 1 => Just(0u64)].boxed()
 }
 
 pub fn run(ctx: &Ctx, rep: &mut Report) {
